@@ -66,20 +66,32 @@ def lattice_events(tf, tfl, ctx, rng, n):
     except Exception as ex:  # pylint: disable=broad-except
       evs.append({"ev": "Raised", "site": {"layer": "lattice"}, "exc": repr(ex)[:300], "call": {"cfg": c, "init": init}})
       continue
-    K = layer.kernel.numpy()
-    oc = asserted(tf, layer)
-    Kc = layer.kernel.constraint(layer.kernel).numpy() if layer.kernel.constraint is not None else K
+    layers = [(layer, init)]
+    # the same layer re-created from its own configuration (clone_model, a reloaded architecture) and built afresh
+    try:
+      import tf_keras
+      with tf_keras.utils.custom_object_scope(tfl.premade.get_custom_objects()):
+        l2 = type(layer).from_config(layer.get_config())
+      l2.build((None, rank) if units == 1 else (None, units, rank))
+      layers.append((l2, init))
+    except Exception as ex:  # pylint: disable=broad-except
+      evs.append({"ev": "Raised", "site": {"layer": "lattice", "path": "from_config"}, "exc": repr(ex)[:300], "call": {"cfg": c, "init": init}})
     cc = json.loads(json.dumps(c))
     # the initializer treats jointly unimodal dimensions as unimodal ones
     for u in cc["juni"]:
       for d in u[0]:
         cc["uni"][d - 1] = 1 if u[1] == "valley" else -1
     plain = not (c["edge"] or c["trap"] or c["mdom"] or c["rdom"] or c["jmono"] or c["juni"] or any(c["uni"]))
-    for u in range(units):
-      evs.append({"ev": "LatInit", "cfg": cc, "init": init, "hasRange": False, "lo": [0, 1], "hi": [1, 1], "den": DEN,
-                  "w": ints(K[:, u]), "asserted": oc, "wc": ints(Kc[:, u]), "monoBoundsOnly": bool(plain),
-                  "tolu": 8, "site": {"layer": "lattice", "init": init}, "call": {"cfg": c, "init": init}})
-    ctx.count(units, nontrivial_key=("lat", j))
+    for n2, (lay, _) in enumerate(layers):
+      K = lay.kernel.numpy()
+      oc = asserted(tf, lay)
+      Kc = lay.kernel.constraint(lay.kernel).numpy() if lay.kernel.constraint is not None else K
+      for u in range(units):
+        evs.append({"ev": "LatInit", "cfg": cc, "init": init, "hasRange": False, "lo": [0, 1], "hi": [1, 1], "den": DEN,
+                    "w": ints(K[:, u]), "asserted": oc, "wc": ints(Kc[:, u]), "monoBoundsOnly": bool(plain),
+                    "tolu": 8, "site": {"layer": "lattice", "init": init, "from_config": bool(n2)},
+                    "call": {"cfg": c, "init": init, "from_config": bool(n2)}})
+      ctx.count(units, nontrivial_key=("lat", j, n2))
   return evs
 
 
